@@ -10,7 +10,10 @@
 (*  Mode = "c18" : enumerate the whole property placement table             *)
 (*                 (location x property x occurrences x boundary values).   *)
 (*  Mode = "c04" : enumerate seeds and their mutants (semantic corruptions  *)
-(*                 and byte-level edits; Tier "thorough": a second edit).   *)
+(*                 and byte-level edits; Tier "thorough": a second generic  *)
+(*                 edit on top of every structural mutant).                 *)
+(*  Tier (vec)   : "quick" = all pairs of fields over the full lattice,     *)
+(*                 "thorough" = all pairs and all triples.                  *)
 (*                                                                         *)
 (* The state graph is a tree root -> group -> slice -> item so that TLC's   *)
 (* workers share the enumeration; items are printed by an action            *)
@@ -36,9 +39,8 @@ SliceStates(g) ==
   { [g |-> g, i |-> 0, a |-> 0] }
   \cup (IF Trivial(g) THEN {}
         ELSE LET F == Alt(g.k, g.v, g.w, "full")
-                 M == Alt(g.k, g.v, g.w, "med")
                  fs == FldSeq(g)
-             IN  UNION { { [g |-> g, i |-> i, a |-> a] : a \in F[fs[i]] \cup M[fs[i]] } : i \in 1..Len(fs) })
+             IN  UNION { { [g |-> g, i |-> i, a |-> a] : a \in F[fs[i]] } : i \in 1..Len(fs) })
 SliceRaw(s) ==
   LET g == s.g
       d == Def(g.k, g.v, g.w)
@@ -46,11 +48,9 @@ SliceRaw(s) ==
       ELSE IF s.i = 0 THEN {d} \cup RlBoundary(g)
       ELSE
       LET F == Alt(g.k, g.v, g.w, "full")
-          M == Alt(g.k, g.v, g.w, "med")
           fs == FldSeq(g)
           n == Len(fs)
           base == [d EXCEPT ![fs[s.i]] = s.a]
-          inM == s.a \in M[fs[s.i]]
           Pairs(D) == UNION { { [base EXCEPT ![fs[j]] = y] : y \in D[fs[j]] } : j \in (s.i + 1)..n }
           Triples(D) == UNION { UNION { { [base EXCEPT ![fs[j]] = y, ![fs[k]] = z] : y \in D[fs[j]], z \in D[fs[k]] }
                                         : k \in (j + 1)..n } : j \in (s.i + 1)..n }
